@@ -453,4 +453,52 @@ Proof.
     intros col Hcol. apply zlen_pad_right. unfold single_line. destruct (H1 row col Hrow Hcol) as [x Hx]. rewrite Hx.
     apply (max_width_ge m row col x HC Hrow Hcol). rewrite Hx. now left.
 Qed.
+
+(* all renderings single-line: the common height is 1 *)
+Lemma single_line_height m : Coh c es m -> is_empty m = false ->
+  (forall r cl, 0 <= r < nrows m -> 0 <= cl < ncols m -> exists x, lines_at m r cl = [x]) ->
+  max_height (build_cache render m) = 1.
+Proof.
+  intros HC He H1. destruct (nrows_ncols_size c es m HC) as (Hsz & Hnr & Hnc).
+  assert (size m > 0) as Hpos by (unfold is_empty, size, zlen in *; lia).
+  assert (0 < nrows m /\ 0 < ncols m) as [Hr0 Hc0] by nia.
+  unfold max_height. apply Z.le_antisymm.
+  - destruct (fold_max_is (map height_of (build_cache render m)) 0) as [->|Hi]; [lia|].
+    apply in_map_iff in Hi. destruct Hi as (ls & <- & Hin). unfold build_cache in Hin. apply in_map_iff in Hin.
+    destruct Hin as (e & <- & Hin). destruct (In_znth _ _ Hin) as (i & Hi & E).
+    destruct (flat_surjective m i HC Hi) as (r & cl & Hr & Hc & Hf). subst i.
+    destruct (H1 r cl Hr Hc) as [x Hx]. unfold lines_at, at_ in Hx. rewrite E in Hx. rewrite Hx. reflexivity.
+  - destruct (at_in_range c es m 0 0 HC ltac:(lia) ltac:(lia)) as [e E].
+    destruct (H1 0 0 ltac:(lia) ltac:(lia)) as [x Hx]. unfold lines_at in Hx. rewrite E in Hx.
+    apply (fold_max_in _ 0 1). apply in_map_iff. exists [x]. split; [reflexivity|]. unfold build_cache. apply in_map_iff.
+    exists e. split; [exact Hx|]. unfold at_ in E. exact (znth_In _ _ _ E).
+Qed.
+
+(* Debug for single-line renderings: the header with the column numbers, then one line per logical row: the row number,
+   "[", and for each column in order the memory position of the element followed by its rendering padded to the common
+   width, "]" *)
+Definition debug_cells_text m (row ew iw : Z) : text :=
+  concat (map (fun col => sep col ++ (pad_left_dec (flat m row col) iw ++ pad_space INNER_GAP) ++ pad_right (single_line m row col) ew)
+              (zseq (ncols m))).
+
+Theorem debug_single_line m : Coh c es m -> is_empty m = false ->
+  (forall r cl, 0 <= r < nrows m -> 0 <= cl < ncols m -> exists x, lines_at m r cl = [x]) ->
+  let ew := max_width (build_cache render m) in
+  let iw := zlen (dec (size m)) in
+  fmt_debug_gen c render m =
+    Val ((debug_header (ncols m) ew iw ++ [ch_nl]) ++
+         concat (map (fun row => (pad_space TAB_SIZE ++ pad_left_dec row iw ++ pad_space OUTER_GAP ++ [ch_lb]) ++
+                                 debug_cells_text m row ew iw ++ [ch_rb; ch_nl]) (zseq (nrows m))) ++
+         [ch_rb]).
+Proof.
+  intros HC He H1 ew iw. rewrite (debug_spec m HC He). f_equal. fold ew iw.
+  rewrite (single_line_height m HC He H1). unfold debug_text. rewrite (app_assoc (debug_header (ncols m) ew iw ++ [ch_nl])).
+  rewrite <- (fold_app_concat (fun row => (pad_space TAB_SIZE ++ pad_left_dec row iw ++ pad_space OUTER_GAP ++ [ch_lb]) ++
+                                           debug_cells_text m row ew iw ++ [ch_rb; ch_nl])).
+  f_equal. apply fold_left_ext_in. intros a row Hrow. apply in_zseq in Hrow.
+  unfold grid_block. replace (zseq (1 - 1)) with (@nil Z) by reflexivity. cbn [fold_left].
+  rewrite row_line_lead. rewrite <- !app_assoc. do 5 f_equal. unfold debug_cells_text. f_equal. f_equal.
+  apply map_ext_in. intros col Hcol. apply in_zseq in Hcol. do 2 f_equal.
+  unfold cell_line, single_line. destruct (H1 row col Hrow Hcol) as [x ->]. reflexivity.
+Qed.
 End FmtSpec.
